@@ -79,13 +79,35 @@ def _cat(parts):
     return parts[0] if len(parts) == 1 else z3.Concat(*parts)
 
 
+_ICASE = [False]  # set while a pattern compiled with re.IGNORECASE is being translated (ASCII letters only)
+
+
+def _lit(ch):
+    if _ICASE[0] and ch.isascii() and ch.isalpha():
+        return z3.Union(z3.Re(ch.lower()), z3.Re(ch.upper()))
+    return z3.Re(ch)
+
+
+def _range(a, b):
+    r = z3.Range(a, b)
+    if _ICASE[0] and a.isascii() and b.isascii():
+        extra = []
+        for lo, hi, f in (("a", "z", str.upper), ("A", "Z", str.lower)):
+            x, y = max(a, lo), min(b, hi)
+            if x <= y:
+                extra.append(z3.Range(f(x), f(y)))
+        if extra:
+            return z3.Union(r, *extra)
+    return r
+
+
 def _class_item(op, av):
     import re._constants as C  # type: ignore
 
     if op is C.LITERAL:
-        return z3.Re(chr(av))
+        return _lit(chr(av))
     if op is C.RANGE:
-        return z3.Range(chr(av[0]), chr(av[1]))
+        return _range(chr(av[0]), chr(av[1]))
     if op is C.CATEGORY:
         if av is C.CATEGORY_DIGIT:
             return z3.Range("0", "9")
@@ -100,11 +122,11 @@ def _node(op, av):
     import re._constants as C  # type: ignore
 
     if op is C.LITERAL:
-        return z3.Re(chr(av))
+        return _lit(chr(av))
     if op is C.ANY:
         return ANYCH
     if op is C.NOT_LITERAL:
-        return z3.Intersect(ANYCH, z3.Complement(z3.Re(chr(av))))
+        return z3.Intersect(ANYCH, z3.Complement(_lit(chr(av))))
     if op is C.IN:
         neg = av and av[0][0] is C.NEGATE
         items = [_class_item(o, a) for o, a in (av[1:] if neg else av)]
@@ -130,11 +152,26 @@ def _seq(items):
     return _cat([_node(op, av) for op, av in items])
 
 
-def regex_language(pattern: str, mode: str):
+def regex_language(pattern, mode: str, flags: int = 0):
     """z3 regex over the WHOLE string for `mode` in {'match','fullmatch','search'}; anchors honoured per top-level
-    alternative (which is what makes '^a|b' differ from '^(?:a|b)')."""
+    alternative (which is what makes '^a|b' differ from '^(?:a|b)').  `pattern` may be a compiled pattern: its flags count
+    (re.IGNORECASE is modelled; any other non-default flag is a model gap)."""
     import re._constants as C  # type: ignore
     import re._parser as P  # type: ignore
+
+    if isinstance(pattern, _re.Pattern):
+        flags, pattern = flags | pattern.flags, pattern.pattern
+    flags &= ~_re.UNICODE
+    if flags & ~_re.IGNORECASE:
+        raise ModelGap(f"regex flags {flags}")
+    _ICASE[0] = bool(flags & _re.IGNORECASE)
+    try:
+        return _regex_language(pattern, mode, C, P)
+    finally:
+        _ICASE[0] = False
+
+
+def _regex_language(pattern, mode, C, P):
 
     BEG, END = (C.AT_BEGINNING, C.AT_BEGINNING_STRING), (C.AT_END, C.AT_END_STRING)
 
@@ -622,12 +659,10 @@ class _StrAccessor:
         return self._res(lambda v: z3.SuffixOf(lift_str(pat), v), na)
 
     def contains(self, pat, na=None, regex=True):
-        pat = pat.pattern if isinstance(pat, _re.Pattern) else pat
         lang = regex_language(pat, "search")
         return self._res(lambda v: z3.InRe(v, lang), na)
 
     def match(self, pat, na=None):
-        pat = pat.pattern if isinstance(pat, _re.Pattern) else pat
         lang = regex_language(pat, "match")
         return self._res(lambda v: z3.InRe(v, lang), na)
 
@@ -812,6 +847,9 @@ class DataFrame(_Gap):
         anynull = [zor(c.nulls[i] for _, c in self._cols) for i in range(len(self.present))]
         newp = [z3.And(p, z3.Not(a)) for p, a in zip(self.present, anynull)]
         return DataFrame(self._cols, present=newp, index=self.index.with_present(newp))
+
+    # no __len__: pandera's only use of len(frame) is ErrorHandler's failure_cases_count (stored, never read), which falls back to
+    # 1 on TypeError; deciding the height there would multiply the paths of every lazy template (measured: 4x the solver queries)
 
     def head(self, n=5):
         newp = _head_mask(self.present, n)
